@@ -2,8 +2,28 @@
 from . import structural
 
 
+def gradient_in_anonymous_symbol(adoc):
+    """a referenced gradient defined inside an id-less <symbol> (which picosvg discards wholesale)"""
+    if not adoc:
+        return False
+    nodes = adoc["nodes"]
+    refs = {a[1] for nd in nodes for a in nd["at"] if a[0] == "fillref"} | {nd.get("ref") for nd in nodes}
+    stack = []
+    for nd in nodes:
+        while stack and stack[-1]["d"] >= nd["d"]:
+            stack.pop()
+        if nd["tag"] in ("linearGradient", "radialGradient") and nd.get("id") in refs and \
+                any(a["tag"] == "symbol" and not a.get("id") for a in stack):
+            return True
+        stack.append(nd)
+    return False
+
+
 def classify(v, svg, opt, o1, adoc, rec):
-    return "C08/" + v.split(":", 1)[1]
+    key = "C08/" + v.split(":", 1)[1]
+    if v == "BAD:EveryUrlResolvesToDefsGradient" and gradient_in_anonymous_symbol(adoc):
+        key += "/gradient-inside-anonymous-symbol"
+    return key
 
 
 def run(out, tier):
